@@ -15,12 +15,17 @@ import (
 	"os"
 	"path/filepath"
 	"sort"
+	"sync"
 	"testing"
+	"time"
 
 	"github.com/andres-erbsen/clock"
 	"github.com/c2h5oh/datasize"
 	"github.com/uber-go/tally"
 	"github.com/uber/kraken/core"
+	"github.com/uber/kraken/lib/backend"
+	"github.com/uber/kraken/lib/backend/backenderrors"
+	"github.com/uber/kraken/lib/blobrefresh"
 	"github.com/uber/kraken/lib/metainfogen"
 	"github.com/uber/kraken/lib/store"
 	"github.com/uber/kraken/lib/store/metadata"
@@ -312,8 +317,19 @@ func judge(c Case, snapDir, work string) (string, []string) {
 		if err := e.cas.GetCacheFileMetadata(name, &p); err != nil && !os.IsNotExist(err) {
 			return fmt.Sprintf("blob %s: persist flag is neither absent nor readable after the crash: %v", name, err), nil
 		}
-		// Regeneration on demand: what a metainfo request does for a cached blob
-		// without metainfo (refresh from the backend, which rewrites blob + metainfo).
+		// Regeneration on demand, as the origin does it: a metainfo request for a cached blob
+		// without metainfo goes through the real blobrefresh.Refresher (here with a backend
+		// that holds the blob). When the refresh has run, the metainfo must be there.
+		if errAbsent(e.cas, name) {
+			if msg, inconclusive := refreshThroughRefresher(e, d, blob); inconclusive {
+				classes = append(classes, "refresher-did-not-finish-in-60s")
+			} else if msg != "" {
+				return fmt.Sprintf("blob %s: %s", name, msg), nil
+			} else {
+				classes = append(classes, "metainfo-regenerated-by-refresher")
+			}
+		}
+		// The same at store level: what a backend refresh writes (blob + metainfo).
 		if err := e.cas.WriteBlobToCacheWithMetaInfo(name, uint64(len(blob)), func(w store.FileReadWriter) error {
 			_, err := w.Write(blob)
 			return err
@@ -433,7 +449,7 @@ func TestProp(t *testing.T) {
 	pbt.Main(t, pbt.Spec{
 		ID:    "C05",
 		Level: "fault_enumeration",
-		Rule: "rapid generates CAStore workloads (1-2 blobs of 1-41 bytes; 2-10 ops from: chunked upload + commit, CreateCacheFile, persist flag, metainfogen.Generate, metainfo overwrite with another piece length, backend-refresh write (WriteBlobToCacheWithMetaInfo) with the memory write-through cache off/on at several capacities, explicit drain steps, delete); each runs in a child under ptrace and EVERY prefix of its mutating system calls under upload+cache directories is snapshotted (evaluations = distinct crash trees per workload). Reopen oracle on a copy: NewCAStore succeeds, upload dir empty, every listed blob opens, hashes to its name and stats to its length, TorrentMeta is absent (IsNotExist) or valid against an independent recomputation, Persist absent or parses, a refresh then yields valid metainfo, unlisted blobs can be written again. non-trivial = crash state strictly inside an operation whose tree differs from that operation's start and end trees; distinct by (config, tree hash)",
+		Rule:  "rapid generates CAStore workloads (1-2 blobs of 1-41 bytes; 2-10 ops from: chunked upload + commit, CreateCacheFile, persist flag, metainfogen.Generate, metainfo overwrite with another piece length, backend-refresh write (WriteBlobToCacheWithMetaInfo) with the memory write-through cache off/on at several capacities, explicit drain steps, delete); each runs in a child under ptrace and EVERY prefix of its mutating system calls under upload+cache directories is snapshotted (evaluations = distinct crash trees per workload). Reopen oracle on a copy: NewCAStore succeeds, upload dir empty, every listed blob opens, hashes to its name and stats to its length, TorrentMeta is absent (IsNotExist) or valid against an independent recomputation, Persist absent or parses, the origin's refresh path (real blobrefresh.Refresher over a backend that holds the blob) regenerates absent metainfo, a store-level refresh then yields valid metainfo, unlisted blobs can be written again. non-trivial = crash state strictly inside an operation whose tree differs from that operation's start and end trees; distinct by (config, tree hash)",
 		Assumptions: []string{
 			"process-crash model: completed system calls persist; a single write system call is atomic",
 			"memory-cache draining is driven by explicit synchronous drain steps (verif hook) on a mock clock that never advances",
@@ -441,4 +457,67 @@ func TestProp(t *testing.T) {
 		},
 		Parts: []pbt.Part{pbt.NewPart("crash", 1, gen, run)},
 	})
+}
+
+// errAbsent reports whether the blob's metainfo is absent.
+func errAbsent(cas *store.CAStore, name string) bool {
+	var tm metadata.TorrentMeta
+	return os.IsNotExist(cas.GetCacheFileMetadata(name, &tm))
+}
+
+// oneBlobBackend is a storage backend that holds exactly one blob.
+type oneBlobBackend struct {
+	name string
+	blob []byte
+}
+
+func (b *oneBlobBackend) Stat(namespace, name string) (*core.BlobInfo, error) {
+	if name != b.name {
+		return nil, backenderrors.ErrBlobNotFound
+	}
+	return core.NewBlobInfo(int64(len(b.blob))), nil
+}
+func (b *oneBlobBackend) Upload(namespace, name string, src io.Reader) error { return nil }
+func (b *oneBlobBackend) Download(namespace, name string, dst io.Writer) error {
+	if name != b.name {
+		return backenderrors.ErrBlobNotFound
+	}
+	_, err := dst.Write(b.blob)
+	return err
+}
+func (b *oneBlobBackend) List(prefix string, opts ...backend.ListOption) (*backend.ListResult, error) {
+	return &backend.ListResult{}, nil
+}
+func (b *oneBlobBackend) Close() error { return nil }
+
+type hookFunc func(core.Digest)
+
+func (f hookFunc) Run(d core.Digest) { f(d) }
+
+// refreshThroughRefresher runs the origin's refresh path for a cached blob whose metainfo is
+// absent and waits (structurally: for the refresher's post hook) until it has run.
+func refreshThroughRefresher(e *env, d core.Digest, blob []byte) (msg string, inconclusive bool) {
+	bm := backend.ManagerFixture()
+	if err := bm.Register(".*", &oneBlobBackend{name: d.Hex(), blob: blob}, false); err != nil {
+		return "", true
+	}
+	r := blobrefresh.New(blobrefresh.Config{}, tally.NoopScope, e.cas, bm, e.gen)
+	done := make(chan struct{})
+	var once sync.Once
+	if err := r.Refresh("ns", d, hookFunc(func(core.Digest) { once.Do(func() { close(done) }) })); err != nil && err != blobrefresh.ErrPending {
+		return fmt.Sprintf("the origin's refresh of a cached blob without metainfo fails after the crash: %v", err), false
+	}
+	select {
+	case <-done:
+	case <-time.After(60 * time.Second):
+		return "", true
+	}
+	var tm metadata.TorrentMeta
+	if err := e.cas.GetCacheFileMetadata(d.Hex(), &tm); err != nil {
+		return fmt.Sprintf("metainfo still unavailable after the origin's refresh path (blobrefresh.Refresher) ran for the cached blob: %v", err), false
+	}
+	if m := validMetaInfo(tm.MetaInfo, blob, d); m != "" {
+		return "metainfo regenerated by the origin's refresh path is not valid: " + m, false
+	}
+	return "", false
 }
